@@ -310,7 +310,12 @@ func (s *Sim) handle(w http.ResponseWriter, r *http.Request) {
 		}
 	case "tx-status":
 		if bh := s.TxBlock[detail]; bh != "" {
-			body = map[string]interface{}{"type": "Confirmed", "blockHash": bh, "txIndex": 0, "chainConfirmations": 1, "fromGroupConfirmations": 1, "toGroupConfirmations": 1}
+			// as the node counts them: the including block is the first confirmation
+			conf := int32(1)
+			if b := s.Blocks[bh]; b != nil && s.Height >= b.Height {
+				conf = s.Height - b.Height + 1
+			}
+			body = map[string]interface{}{"type": "Confirmed", "blockHash": bh, "txIndex": 0, "chainConfirmations": conf, "fromGroupConfirmations": conf, "toGroupConfirmations": conf}
 		} else {
 			body = map[string]interface{}{"type": "TxNotFound"}
 		}
